@@ -55,6 +55,7 @@ class ModelLog:
     def __init__(self):
         self.env = None
         self.receives = []          # (time, dev_id, part, ct_read, dispatch_serial)
+        self.receive_units = []     # aligned with receives: the direct members of the received batch (or [part])
         self.finishes = []          # (time, dev_id, part)
         self.shutdowns = []         # (time, dev_id, idx, is_failure, lost_part)
         self.restores = []          # (time, dev_id, idx)
@@ -88,6 +89,7 @@ class ReceiveCb:
             return
         lg = self.log
         lg.receives.append((lg.now(), self.dev_id, part, dev.cycle_time, lg.serial(), leaves_of(part), part.value))
+        lg.receive_units.append(units_of(part))
 
 
 class FinishCb:
@@ -268,6 +270,11 @@ class CtScript:
         self.k += 1
 
 
+def units_of(part):
+    parts = getattr(part, 'parts', None)
+    return [part] if parts is None else list(parts)
+
+
 def leaves_of(part):
     parts = getattr(part, 'parts', None)
     if parts is None:
@@ -388,6 +395,10 @@ class ScriptAction:
                 w.extra_scratch.append(instrument.scratch_environment(ids + [-1] if op.get('with_minus_one') else ids,
                                                                       pools=op.get('pools')))
                 out = len(ids)
+            elif kind == 'sched_pause':
+                w.system.env.pause_matching_events(asset_id=w.devs[op['sched']].id)
+            elif kind == 'sched_resume':
+                w.system.env.unpause_matching_events(asset_id=w.devs[op['sched']].id)
             elif kind == 'sched_unregister':
                 out = w.devs[op['sched']].unregister_object(w.devs[op['target']])
             elif kind == 'sched_register':
